@@ -103,6 +103,55 @@ var slotTemplates = []template{
 		{"", "a", "{", "{x", "{x}", "{x}}", "\\", "\\q", "\\x", "\\xZZ", "\\u12", "\\u{", "\\0", "\\777", "\n"},
 		{"", "{1 +}", "{'a'}", "{f(}", "{ }"},
 		{"'", "\"", "`", ""}}},
+	{"chan", [][]string{
+		{"c := chan(1);", "c := chan();", ""},
+		{"c", "x", "<-", ""},
+		{"<-", "<- <-", ""},
+		{"1", "c", "f()", "1 + 2", ""},
+		{";", ""},
+		{"<-c", "close(c)", "c <-", "", "<-c; <-c"}}},
+	{"attr", [][]string{
+		{"x", "y", "f", "1", "\"s\"", "math"},
+		{".", "?.", ".."},
+		{"a", "append", "1", "", "(", "keys"},
+		{"", "(", "()", "(1)", " = 1", " += 1", ".b", ".b()", ".b = 2", "++"}}},
+	{"pipe", [][]string{
+		{"x", "f", "1"}, {"|"},
+		{"f", "len", "f(1)", "x", "", "1"},
+		{"", "|", "| f", "| len | f", "| x.append"}}},
+	{"range", [][]string{
+		{"for", ""},
+		{"", "i :=", "i, j :=", "i, j, k :=", "i =", "var i =", "i, j ="},
+		{"range"},
+		{"", "x", "y", "3", "f", "\"ab\"", "nil", "range x"},
+		{"{ i }", "{}", ""}}},
+	{"for-in", [][]string{
+		{"for"},
+		{"i", "i, j", "1", ""},
+		{"in", "not in"},
+		{"x", "y", "3", "", "\"ab\"", "f"},
+		{"{ i }", "{}", ""}}},
+	{"try", [][]string{
+		{"try("},
+		{"", "f", "func() { error(\"e\") }", "1", "x.nope"},
+		{",", ""},
+		{"", "func(e) { return e }", "2", "func() {}", "func(a, b) {}"},
+		{",", ""},
+		{"", "3", "f"},
+		{")", ""}}},
+	{"comments", [][]string{
+		{"", "x"},
+		{"//", "#", "/*", "/* */", "/**/", "*/", "#!"},
+		{"", "c", "\n", "*/", "/*"},
+		{"", "1", "\n1"}}},
+	{"numbers", [][]string{
+		{"", "-", "+", "!"},
+		{"0", "0x", "0b", "0o", "1e", "1.", ".5", "1_0", "9223372036854775808", "1e999", "0x8000000000000000", "007", "08", "1.2.3", "1..2", "0xg", "1e+"},
+		{"", "e5", ".x", "x", "++", "()", "[0]"}}},
+	{"incdec", [][]string{
+		{"x", "x.y", "x[0]", "1", "", "z := 1; z"},
+		{"++", "--"},
+		{"", "++", "x", ";", "; z"}}},
 }
 
 const slotPrelude = "x := [1, 2, 3]\ny := {\"a\": 1}\nf := func(a=0, b=0) { return a }\n"
